@@ -2,18 +2,23 @@
 """Run the repository's baseline test suite (guard OFF by default) and compare with /root/.vp/BASELINE.json.
 usage: baseline.py [--tags verif] [--repo /repo]
 exit 0 iff every stable_pass test passes."""
-import json, os, subprocess, sys
+import json, os, shutil, subprocess, sys, tempfile
 repo = '/repo'; tags = None
 a = sys.argv[1:]
 while a:
     x = a.pop(0)
     if x == '--tags': tags = a.pop(0)
     elif x == '--repo': repo = a.pop(0)
-env = dict(os.environ, GOFLAGS='-mod=mod', GOPROXY='off', GOSUMDB='off', GOTOOLCHAIN='local')
+# (the suite's own tests leave vise_testdata_* / vise-db-* directories behind: they get a temporary directory of their own)
+tmp = tempfile.mkdtemp(prefix='verif-baseline-')
+env = dict(os.environ, GOFLAGS='-mod=mod', GOPROXY='off', GOSUMDB='off', GOTOOLCHAIN='local', TMPDIR=tmp)
 cmd = ['go', 'test', '-json', '-vet=off', '-count=1', '-timeout', '25m']
 if tags: cmd += ['-tags', tags]
 cmd += ['./...']
-p = subprocess.run(cmd, cwd=repo, env=env, stdout=subprocess.PIPE, stderr=subprocess.DEVNULL, text=True)
+try:
+    p = subprocess.run(cmd, cwd=repo, env=env, stdout=subprocess.PIPE, stderr=subprocess.DEVNULL, text=True)
+finally:
+    shutil.rmtree(tmp, ignore_errors=True)
 passed = set(); failed = set()
 for line in p.stdout.splitlines():
     try: ev = json.loads(line)
